@@ -87,13 +87,35 @@ def body(run):
         raise vf.Inconclusive("TLC emitted only %d scenarios" % len(scen))
     scen.sort(key=lambda s: json.dumps(s, sort_keys=True))
     rnd = random.Random(run.seed)
-    # half of the sample from configurations whose server accepts anything at all
-    alive = [s for s in scen if s["scfg"]["mm"] != 0]
+
+    def kind(s):
+        peer = s["scfg"] if s["dir"] == "c2s" else s["ccfg"]
+        n = s["len"]
+        bufs = {s["ccfg"]["rb"], s["ccfg"]["sb"], s["scfg"]["rb"], s["scfg"]["sb"]}
+        if n == 100:
+            k = "small"
+        elif peer["mm"] and n in (peer["mm"], peer["mm"] + 1):
+            k = "mm"
+        elif peer["mc"] and any(n in (peer["mc"] * (b - 24), peer["mc"] * (b - 24) + 1) for b in bufs):
+            k = "mc"
+        else:
+            k = "buf"
+        # a server with MaxMessageSize 0 refuses the OpenSecureChannel already (known finding)
+        return (s["dir"], k, s["scfg"]["mm"] != 0)
+    groups = {}
+    for s in scen:
+        groups.setdefault(kind(s), []).append(s)
     n = run.pick(160, 1600)
-    pick = rnd.sample(alive, min(n * 3 // 4, len(alive))) + rnd.sample(scen, min(n // 4, len(scen)))
+    pick = []
+    # equal quota per (direction, size kind); configurations whose server accepts nothing get 1/5
+    for gk in sorted(groups):
+        quota = max(1, (n // 8) if gk[2] else (n // 40))
+        g = groups[gk]
+        pick += rnd.sample(g, min(quota, len(g)))
     for i, s in enumerate(pick):
         s = dict(s)
         s["id"] = i + 1
+        s["decoy"] = rnd.random() < 0.5
         pick[i] = s
     run.log("TLC: %d states; %d of %d scenarios sampled" % (run.cov["states"], len(pick), len(scen)))
     results = run.go_run(exe[0], ["-workers", "12"], cases=pick, timeout=2400)
@@ -108,51 +130,82 @@ def body(run):
         raise vf.Inconclusive("only %d of %d scenarios produced a trace: %s" % (
             len(traces), len(pick), json.dumps(run.inconclusive[:2])[:600]))
 
-    # ---- code -> spec: TLC validates the recorded traces against the as-is specification
-    on = open_flags()
+    # ---- code -> spec: TLC validates the recorded traces against the as-is specification.
+    # As-is = the Dev_* flags of the open findings.  A trace that this configuration rejects is
+    # tried again with fewer deviations (a repaired defect makes the code behave like the contract
+    # for that flag; flags only ever move towards the contract); a trace that no configuration
+    # accepts is a violation.  The contract predicates are evaluated on every accepted trace
+    # whatever configuration accepted it.
+    import itertools
+    on = sorted(open_flags())
     base = open(os.path.join(vf.VERIF, "spec", F, "UacpNegotiationTrace_base.cfg")).read()
-    cfg = base.replace("  Emit = FALSE\n", "".join("  %s = %s\n" % (f, "TRUE" if f in on else "FALSE") for f in FLAGS)
-                       + "  Emit = FALSE\n")
-    run.cov["as_is_flags"] = sorted(on)
-    todo = sorted(traces)
-    flagged = {}
-    rejected = []
-    for _round in range(12):
-        if not todo:
-            break
-        lines, owner = [], []
-        for tid in todo:
+    loc = open(os.path.join(vf.VERIF, "spec", F, "UacpNegotiationTrace_locate.cfg")).read()
+
+    def cfgtext(text, flagset):
+        return text.replace("  Emit = FALSE\n", "".join(
+            "  %s = %s\n" % (f, "TRUE" if f in flagset else "FALSE") for f in FLAGS) + "  Emit = FALSE\n")
+
+    def tracefile(tids):
+        lines = []
+        for tid in tids:
             for e in traces[tid]["obs"]:
-                e = {k: v for k, v in e.items() if k not in ("detail", "call", "kind")}
-                lines.append(json.dumps(e))
-                owner.append(tid)
+                lines.append(json.dumps({k: v for k, v in e.items() if k not in ("detail", "call", "kind")}))
             lines.append(json.dumps({"ev": "end"}))
-            owner.append(tid)
-        tr = run.tlc(F, "UacpNegotiationTrace", "asis.cfg", mode="trace", count=False, timeout=1800,
-                     files={"trace.ndjson": "\n".join(lines) + "\n", "asis.cfg": cfg},
-                     label="trace validation against the as-is specification (%d traces)" % len(todo))
-        for r in tr.rows:
-            flagged[r["id"]] = r["flags"]
+        return "\n".join(lines) + "\n"
+
+    run.cov["as_is_flags"] = on
+    flagged, accepted_by = {}, {}
+    # as-is, then as-is minus one flag (one defect repaired), then the contract
+    subsets = [set(on)] + [set(on) - {f} for f in on] + ([set()] if len(on) > 1 else [])
+
+    def validate(todo):
+        """returns the ids no configuration accepts"""
+        for sub in subsets:
+            if not todo:
+                break
+            tr = run.tlc(F, "UacpNegotiationTrace", "asis.cfg", mode="trace", count=False, timeout=1800,
+                         files={"trace.ndjson": tracefile(todo), "asis.cfg": cfgtext(base, sub)},
+                         label="trace validation, deviations %s (%d traces)" % (sorted(sub) or "none", len(todo)))
+            if not tr.ok:
+                run.save_text("tlc-trace.out", tr.out)
+                run.save_text("tlc-trace.ndjson", tracefile(todo))
+                raise vf.Inconclusive("trace validation run failed: %s" % (tr.error or tr.violated))
+            for r in tr.rows:
+                flagged[r["id"]] = r["flags"]
+                accepted_by[r["id"]] = sorted(sub)
+            todo = [t for t in todo if t not in flagged]
+        return todo
+
+    todo = validate(sorted(traces))
+    if todo:
+        # a rejected trace is recorded a second time before it counts: a chunk list cut short by a
+        # slow proxy must not become a verdict
+        run.log("%d traces rejected, recording them again" % len(todo))
+        again = run.go_run(exe[0], ["-workers", "4"], cases=[traces[t]["case"] for t in todo], timeout=1200)
+        for r in again:
+            if r.get("status") == "ok" and r.get("obs"):
+                traces[r["case"]["id"]] = r
+        run.cov["traces_recorded_twice"] = len(todo)
+        todo = validate(todo)
+    run.save_text("traces-seed%d-%s.ndjson" % (run.seed, run.tier),
+                  "".join(json.dumps({"case": traces[t]["case"], "obs": traces[t]["obs"]}) + "\n" for t in sorted(traces)))
+    run.cov["traces_accepted_with_fewer_deviations"] = sum(1 for t in accepted_by.values() if t != on)
+    rejected = []
+    for bad in todo[:5]:   # locate the first event that is no step of the as-is specification
+        tr = run.tlc(F, "UacpNegotiationTrace", "loc.cfg", mode="trace", count=False, timeout=600,
+                     files={"trace.ndjson": tracefile([bad]), "loc.cfg": cfgtext(loc, set(on))},
+                     label="locating the rejected event of trace %s" % bad)
         m = re.search(r'"STUCK (\d+)"', tr.out)
-        if tr.ok and not m:
-            todo = []
-            break
-        if not m:
-            run.save_text("tlc-trace.out", tr.out)
-            raise vf.Inconclusive("trace validation failed without a position: %s" % (tr.error or tr.violated))
-        pos = int(m.group(1))              # first event no action of the specification matches
-        bad = owner[min(pos, len(owner)) - 1]
-        ev = json.loads(lines[min(pos, len(lines)) - 1])
+        obs = traces[bad]["obs"]
+        ev = obs[min(int(m.group(1)), len(obs)) - 1] if m else {"ev": "?"}
         rejected.append((bad, ev))
-        todo = [t for t in todo if t > bad]  # traces before `bad` were accepted in this round
-    skipped = set(todo)   # after 12 rejected traces the rest of the batch is not validated any more
-    if skipped:
-        run.notes.append("%d traces not validated after 12 rejections" % len(skipped))
+    rejected += [(bad, {"ev": "?"}) for bad in todo[5:]]
+    skipped = set()
     for bad, ev in rejected:
         c = traces[bad]["case"]
         run.violation("trace-not-a-behaviour-of-the-as-is-specification:%s-%s" % (ev.get("ev"), ev.get("dir", "")),
-                      "event %s of scenario %s is not a step of UacpNegotiation under %s" % (
-                          json.dumps(ev), json.dumps(c), sorted(on) or "the contract"),
+                      "event %s of scenario %s is not a step of UacpNegotiation under %s (nor with one deviation "
+                      "less, nor under the contract)" % (json.dumps(ev), json.dumps(c), on or "the contract"),
                       case={"scenario": c, "trace": traces[bad]["obs"]})
     ok = 0
     for tid, r in traces.items():
